@@ -215,12 +215,23 @@ def systematic_resample(
         weights = np.array(weights) / np.sum(weights)
 
     positions = (np.random.random() + np.arange(size)) / size
+    # Tooth i lies in [i/size, (i+1)/size): an offset within rounding distance
+    # of 1 must not round the tooth up onto the next cell boundary.
+    positions = np.minimum(
+        positions, np.nextafter((np.arange(size) + 1.0) / size, 0.0)
+    )
+
+    # Never step onto trailing zero-weight samples: a position can reach the
+    # total (rounding of (u + i) / size up to 1.0, or a cumulative sum that ends
+    # just below 1), and the search must then stay on the last weighted sample.
+    nonzero = np.flatnonzero(weights)
+    last = nonzero[-1] if len(nonzero) > 0 else len(weights) - 1
 
     j = 0
     cumulative_sum = weights[0]
     indeces = np.empty(size, dtype=int)
     for i in range(size):
-        while positions[i] >= cumulative_sum and j < len(weights) - 1:
+        while positions[i] >= cumulative_sum and j < last:
             j += 1
             cumulative_sum += weights[j]
         indeces[i] = j
